@@ -80,6 +80,8 @@ func runC12(c *Ctx) {
 	c12NilMeansDeleted(c, pk)
 	c12OptionsTypesComplete(c, pk)
 	c12FilterOnce(c)
+	c12FieldTypeChecked(c, pk)
+	c12IndexTotal(c, pk)
 	batchKeyRule(c, "BATCH-KEY")
 	c12PathIndexPositional(c, pk)
 	info := pk.TypesInfo
